@@ -438,7 +438,11 @@ def _read_o_file(cfg_path, name, needed_keys, intern, version, im):
                 T = intern[name]["T"]
                 start_read = intern[name]["spec"][quarks][off][w][w2]["start"]
                 deltas = []
-                for line in lines[start_read:start_read + T]:
+                corr_lines = lines[start_read:start_read + T]
+                # check, if the correlator is in fact printed completely
+                if len(corr_lines) < T or not corr_lines[-1].endswith('\n'):
+                    raise Exception("EOF before end of correlator data! Maybe " + file + " is corrupted?")
+                for line in corr_lines:
                     floats = list(map(float, line.split()))
                     if version == "0.0":
                         deltas.append(floats[im - intern[name]["single"]])
@@ -592,7 +596,11 @@ def _read_chunk(chunk, gauge_line, cfg_sep, start_read, T, corr_line, b2b, patte
     for li in chunk[corr_line + 1:corr_line + 6 + b2b]:
         found_pat += li
     if re.search(pattern, found_pat):
-        for t, line in enumerate(chunk[start_read:start_read + T]):
+        corr_lines = chunk[start_read:start_read + T]
+        # check, if the correlator is in fact printed completely
+        if len(corr_lines) < T or not corr_lines[-1].endswith('\n'):
+            raise Exception("EOF before end of correlator data! Problem with chunk around line " + str(gauge_line))
+        for t, line in enumerate(corr_lines):
             floats = list(map(float, line.split()))
             data.append(floats[im + 1 - single])
     return idl, data
